@@ -139,7 +139,7 @@ def standard_run(report, pid, module, tier, seed, selftests, extra_events=(), np
     events += list(extra_events)
     for e in events:
         report.case(e, trivial)
-    judge(report, module, events, relevant=relevant)
+    judge(report, module, events, relevant=relevant, timeout=1500 if tier == "quick" else 5000)
     # rejection self-tests are corruptions of lines the specification ACCEPTED (so that a corruption can never
     # accidentally repair a rejected line); they are validated in a second pass
     st = selftests([e for e in events if e.get("_verdict") == "accepted"], random.Random(seed))
